@@ -429,13 +429,16 @@ func c03HoldAndRecheck(t *c03Target, o c03Outcome, in []byte, report func(sig, d
 	return ok
 }
 
-func c03RunCase(t *c03Target, ver consts.ProtocolVersionType, in []byte, prior [][]byte, report func(sig, detail string)) (ok bool) {
+func c03RunCase(t *c03Target, ver consts.ProtocolVersionType, in []byte, prior [][]byte, report func(sig, detail string), forceString ...bool) (ok bool) {
 	withString := true
 	if t.TypeName == "P0x8103" || t.TypeName == "T0x0104" {
 		withString = len(in)%7 == 0 // String() of the terminal-parameter types costs ~1 ms
 	}
 	if len(in) > 20000 {
 		withString = false // text rendering of tens of thousands of list entries costs seconds and adds nothing per cut
+	}
+	if len(forceString) > 0 && forceString[0] {
+		withString = true // (the whole, consistent big bodies are rendered once each)
 	}
 	tn := t.Name
 	run := func(what string, p bodyParser, body []byte) (o c03Outcome, panicked bool) {
@@ -1019,7 +1022,7 @@ func c03Worker(c *core.Collector, x *Ctx) {
 					defer close(done)
 					c03RunCase(tgt, tc.Ver, in, nil, func(sig, detail string) {
 						c.Violate(sig, detail+fmt.Sprintf(" [body of %d bytes, %s]", len(in), tc.Name), cs)
-					})
+					}, len(in) == len(body))
 				}()
 				select {
 				case <-done:
